@@ -228,7 +228,9 @@ def protected(sc: dict) -> List[str]:
     es = edges(sc)
     names = sorted({x for e in es for x in e})
     removed, barrier = [], []
-    r_out = ("R1", "SW2") if sc.get("routers", 1) == 1 else ("R1", "R2")
+    at = sc.get("at", "R1")
+    r_in = ("SW1", "R1") if at == "R1" else ("R1", "R2")
+    r_out = ("R1", "SW2") if sc.get("routers", 1) == 1 else (("R1", "R2") if at == "R1" else ("R2", "SW2"))
     if m in ("sw1_uplink_disabled", "sw2_uplink_disabled"):
         removed = [("SW1", "SW2")]
     elif m in ("sw2_b_port_disabled", "b_nic_disabled", "b_off"):
@@ -240,12 +242,12 @@ def protected(sc: dict) -> List[str]:
     elif m == "removed_link":
         removed = [tuple(sc["remove"].split("-"))]
     elif m in ("sw2_off", "sw1_off", "router_off", "fw_off"):
-        x = {"sw2_off": "SW2", "sw1_off": "SW1", "router_off": "R1", "fw_off": "FW"}[m]
+        x = {"sw2_off": "SW2", "sw1_off": "SW1", "router_off": at, "fw_off": "FW"}[m]
         removed = [e for e in es if x in e]
     elif m.startswith("router_deny"):
-        barrier = ["R1"]
+        barrier = [at]
     elif m == "router_port_a_disabled":
-        removed = [("SW1", "R1")]
+        removed = [r_in]
     elif m == "router_port_b_disabled":
         removed = [r_out]
     elif m in ("fw_first_stage_deny", "fw_first_stage_empty", "fw_second_stage_deny"):
@@ -280,15 +282,16 @@ CERTIFIABLE = {"sw1_uplink_disabled", "sw2_uplink_disabled", "sw2_b_port_disable
 
 def roles_for(sc: dict) -> Dict[str, str]:
     m = sc["block"]
+    at = sc.get("at", "R1")
     return {
         "sw1_uplink_disabled": {"SW1": "ifaceDown"}, "sw2_uplink_disabled": {"SW2": "frozen"},
         "sw2_b_port_disabled": {"SW2": "ifaceDown"}, "b_nic_disabled": {"B": "frozen"}, "b_off": {"B": "frozen"},
         "a_nic_disabled": {"A": "ifaceDown", "C": "ifaceDown"}, "missing_link": {}, "removed_link": {},
-        "sw2_off": {"SW2": "frozen"}, "sw1_off": {"SW1": "frozen"}, "router_off": {"R1": "routerOff"}, "fw_off": {"FW": "frozen"},
-        "router_port_a_disabled": {"R1": "frozen"}, "router_port_b_disabled": {"R1": "ifaceDown"},
+        "sw2_off": {"SW2": "frozen"}, "sw1_off": {"SW1": "frozen"}, "router_off": {at: "routerOff"}, "fw_off": {"FW": "frozen"},
+        "router_port_a_disabled": {at: "frozen"}, "router_port_b_disabled": {at: "ifaceDown"},
         "fw_port_a_disabled": {"FW": "frozen"}, "fw_port_b_disabled": {"FW": "ifaceDown"},
         "fw_first_stage_deny": {"FW": "fwDeny"}, "fw_first_stage_empty": {"FW": "fwDeny"}, "fw_second_stage_deny": {"FW": "fwDeny"},
-    }.get(m, {"R1": "routerDeny"} if m.startswith("router_deny") else {})
+    }.get(m, {at: "routerDeny"} if m.startswith("router_deny") else {})
 
 
 def topo_lines(sc: dict, sim, N, prot: List[str]) -> List[str]:
@@ -610,7 +613,7 @@ def gen_scenario(rng: Rng, max_ops: int = 8) -> dict:
     sc: Dict[str, Any] = {"family": fam, "block": rng.choice(BLOCKS[fam]), "rule_pos": rng.choice([0, 0, 1, 3, 9])}
     if fam == "routed":
         sc["routers"] = rng.choice([1, 1, 2])
-        sc["at"] = "R1"
+        sc["at"] = "R1" if sc["routers"] == 1 else rng.choice(["R1", "R2"])
     if fam == "firewall":
         za = rng.choice(["ext", "int", "dmz"])
         sc["a_zone"], sc["b_zone"] = za, rng.choice([z for z in ("ext", "int", "dmz") if z != za])
